@@ -2,7 +2,8 @@
 from .pdb import strip, walk, loc, ancestors
 from .terms import Ctx, num, show
 from .common import (P, F, SIZE, effects, callee_path, call_args, rule_index_kinds, same_dim, callee_param_bounds, GE, effective_guards)
-from .guards import for_range
+from .guards import for_range as raw_for_range
+from .common import for_range_total as for_range
 
 LEVEL = "other"
 CX = "complex::Complex<f64>"
